@@ -12,7 +12,7 @@ from typing import Any, Dict, List, Optional, Tuple
 
 import numpy
 
-from .. import core, model, seams
+from .. import prelude, core, model, seams
 from ..runner import NUMPOLY_DIR
 
 ID = "C12"
@@ -132,7 +132,7 @@ def generate(rs: int, tier: str, index: int) -> dict:
         step["v"] = _poly(ch.sub("v"), d2, shape=())
         step["shape"] = list(ch.choice([(), (2,), (2, 2)]))
     fills = FILLS if tier == "thorough" else ["zero"] + ch.sample(FILLS[1:], 2)
-    return {"property": ID, "run_seed": rs, "tier": tier, "fills": fills, "steps": [step]}
+    return {"property": ID, "run_seed": rs, "tier": tier, "prelude": prelude.gen_prelude(core.Chooser(rs, "prelude")), "fills": fills, "steps": [step]}
 
 
 # ---------------------------------------------------------------------------
@@ -536,11 +536,16 @@ def execute(plan: dict) -> dict:
     runner = Runner(plan)
     with warnings.catch_warnings():
         warnings.simplefilter("ignore")
+        prelude.run_prelude(plan.get("prelude"), runner.stats)
         runner.run()
     return {"violations": runner.violations, "events": runner.events, "stats": runner.stats, "sigs": sorted(runner.sigs)}
 
 
 def simplify(plan: dict):
+    if plan.get("prelude"):
+        yield dict(plan, prelude=None)
+        for i in range(len(plan["prelude"])):
+            yield dict(plan, prelude=plan["prelude"][:i] + plan["prelude"][i + 1:] or None)
     if len(plan["fills"]) > 2:
         for f in plan["fills"][1:]:
             yield dict(plan, fills=[plan["fills"][0], f])
